@@ -146,6 +146,11 @@ func (r *rw) redirect(n *ast.SelectorExpr) ast.Expr {
 		r.stats["rand"]++
 		return &ast.SelectorExpr{X: id("dsim"), Sel: id("RandRead")}
 	}
+	if path == "time" && (n.Sel.Name == "Now" || n.Sel.Name == "Since" || n.Sel.Name == "Until") {
+		// reading the clock is a preemption point: time may pass between two reads
+		r.stats["clock"]++
+		return &ast.SelectorExpr{X: id("dsim"), Sel: id("Time" + n.Sel.Name)}
+	}
 	if m, ok := redirects[path]; ok {
 		if to, ok := m[n.Sel.Name]; ok {
 			r.stats["redirect:"+path+"."+n.Sel.Name]++
@@ -795,7 +800,7 @@ func instrumentPackage(p *packages.Package, repo, outDir string, overlay map[str
 		if !astutil.UsesImport(f, dsimPath) {
 			astutil.DeleteImport(p.Fset, f, dsimPath)
 		}
-		for _, imp := range []string{"crypto/rand", "net", "github.com/pion/transport/v2/udp", "go.bug.st/serial", "sync"} {
+		for _, imp := range []string{"crypto/rand", "net", "github.com/pion/transport/v2/udp", "go.bug.st/serial", "sync", "time"} {
 			if !astutil.UsesImport(f, imp) {
 				astutil.DeleteImport(p.Fset, f, imp)
 			}
